@@ -54,7 +54,7 @@ fn shapes() -> Vec<(&'static str, Value, Value)> {
 
 fn cases14(_ob: &str) -> Vec<String> {
     let mut out: Vec<String> = (0..shapes().len()).map(|i| format!("shape:{}", i)).collect();
-    for i in 0..6 { out.push(format!("alt:{}", i)); }
+    for i in 0..8 { out.push(format!("alt:{}", i)); }
     out
 }
 fn data_err<T: std::fmt::Debug>(r: Result<T, serde_lexpr::Error>, what: &str) -> Option<String> {
@@ -71,6 +71,8 @@ fn check14(case: &str) -> Option<String> {
             2 => data_err(from_value::<Vec<i32>>(&Value::append(vec![Value::from(1)], Value::from(2))), "improper list as sequence"),
             3 => data_err(from_value::<(i32, i32)>(&Value::append(vec![Value::from(1)], Value::from(2))), "improper list as tuple"),
             4 => data_err(from_value::<Vec<i32>>(&Value::from("str")), "string as sequence"),
+            5 => data_err(from_value::<(i32, i32)>(&Value::append(vec![Value::from(1), Value::from(2)], Value::from(3))), "improper list (1 2 . 3) as 2-tuple"),
+            6 => data_err(from_value::<Tup>(&Value::append(vec![Value::from(1), Value::from("a")], Value::from(3))), "improper list as tuple struct"),
             _ => data_err(from_value::<(i32, i32)>(&sym("x")), "symbol as tuple"),
         },
         _ => None,
@@ -78,9 +80,12 @@ fn check14(case: &str) -> Option<String> {
 }
 
 fn corpus() -> Vec<Value> {
-    let atoms = vec![Value::Nil, Value::Null, Value::from(true), Value::from(1), Value::from(-1), Value::from(300), Value::from(u64::MAX), Value::from(1.5), Value::from('c'), Value::from("s"), sym("U"), sym("N"), sym("x"),
+    let atoms = vec![Value::Nil, Value::Null, Value::from(true), Value::from(1), Value::from(-1), Value::from(300), Value::from(u64::MAX), Value::from(1.5), Value::from(1e300), Value::from(1e39), Value::from(-4e38), Value::from('c'), Value::from("s"), sym("U"), sym("N"), sym("x"),
                      Value::keyword("k"), Value::from(vec![1u8, 2].into_boxed_slice())];
     let mut out = atoms.clone();
+    out.push(Value::Vector(vec![Value::from(7)].into()));
+    out.push(Value::Vector(vec![].into()));
+    out.push(Value::append(vec![Value::from(1), Value::from(2)], Value::from(3)));
     for a in &atoms { out.push(list(vec![a.clone()])); out.push(Value::cons(a.clone(), Value::from(2))); out.push(Value::Vector(vec![a.clone(), Value::from(2)].into())); out.push(list(vec![a.clone(), Value::from(2)])); }
     for a in [sym("N"), sym("T"), sym("S"), sym("U"), sym("a"), Value::from("k")] {
         out.push(Value::cons(a.clone(), Value::from(3)));
@@ -108,7 +113,7 @@ fn one<T>(v: &Value, ty: &str) -> Option<String> where T: serde::Serialize + for
 fn check18(case: &str) -> Option<String> {
     let p: Vec<&str> = case.split(':').collect();
     let v = corpus().into_iter().nth(p.get(1)?.parse::<usize>().ok()?)?;
-    None.or_else(|| one::<bool>(&v, "bool")).or_else(|| one::<i8>(&v, "i8")).or_else(|| one::<u8>(&v, "u8")).or_else(|| one::<i64>(&v, "i64")).or_else(|| one::<u64>(&v, "u64"))
+    None.or_else(|| one::<bool>(&v, "bool")).or_else(|| one::<i8>(&v, "i8")).or_else(|| one::<u8>(&v, "u8")).or_else(|| one::<i64>(&v, "i64")).or_else(|| one::<u64>(&v, "u64")).or_else(|| one::<f32>(&v, "f32")).or_else(|| one::<f64>(&v, "f64")).or_else(|| one::<Vec<f32>>(&v, "Vec<f32>"))
         .or_else(|| one::<char>(&v, "char")).or_else(|| one::<String>(&v, "String")).or_else(|| one::<Option<i32>>(&v, "Option<i32>")).or_else(|| one::<Vec<i32>>(&v, "Vec<i32>"))
         .or_else(|| one::<(i32, i32)>(&v, "(i32, i32)")).or_else(|| one::<BTreeMap<String, i32>>(&v, "BTreeMap<String, i32>")).or_else(|| one::<()>(&v, "()")).or_else(|| one::<Unit>(&v, "Unit"))
         .or_else(|| one::<New>(&v, "New")).or_else(|| one::<Tup>(&v, "Tup")).or_else(|| one::<St>(&v, "St")).or_else(|| one::<E>(&v, "E")).or_else(|| one::<Vec<Option<E>>>(&v, "Vec<Option<E>>"))
